@@ -2,6 +2,8 @@ import NunavutVerif.Lemmas.Variant
 import NunavutVerif.Lemmas.CppObj
 import NunavutVerif.Lemmas.CBuf
 import NunavutVerif.Gen.VariantTables
+import NunavutVerif.Gen.CArrayKinds
+import NunavutVerif.Gen.ErrorCodes
 /-!
 # C04 — generated C/C++ codecs are memory-safe, total and free of prior-state influence
 
@@ -21,6 +23,13 @@ correspondence of `harness/c04.py`):
 * **Index safety of the emitted checks** (`Model/CBuf.lean`): with the up-front capacity check every buffer index of
   serialization is in bounds for every object (counts and tags outside their range included) and every capacity
   including 0; deserialization never leaves the object; under the capacity-override option the exact conditions.
+  Round 2: every array kind of the C templates (variable / fixed x bit-packed, bulk-copied, element loop) with the
+  dimension and the comparison bounds the translator reads off the generated headers for {override off, on} x
+  {endianness any, little} (`Gen/CArrayKinds.lean`): `Row.safe` decided over the whole table, hence no object overrun for any
+  capacity and any user-reduced capacity not above it (the documented precondition, enforced by `#error`); the condition
+  is exact (an unprotected array has an input that leaves the object).
+* **Totality**: every exit of the model is success or a code of the table regenerated from the support templates
+  (`Gen/ErrorCodes.lean`: `NUNAVUT_ERROR_*`, `nunavut::support::Error`), `NULL` arguments included.
 -/
 namespace NunavutVerif.Properties.C04
 open NunavutVerif
@@ -238,9 +247,11 @@ theorem C04_c_serialize_in_bounds (cs : Bool) (m : Msg) (o : MObj) (capBytes : N
 
 /-- The capacity-override option, object side.  When the emitted length comparison uses the capacity of the array
     that is really there (`cmpStorage = true`), serialization never reads outside the object — for every object,
-    every buffer size, with or without the capacity check. -/
-theorem C04_c_serialize_override_never_leaves_object (checkCap : Bool) (m : Msg) (o : MObj) (capBytes : Nat) :
-    (ser checkCap true m o capBytes).isOobObject = false := by
+    every buffer size, with or without the capacity check.  Bit arrays are never compared by `sizeof`: for them the
+    condition is `okBits` (the bound of either comparison is within `8 * sizeof(bitpacked)`), which holds for every
+    generated header by `C04_c_array_kinds_table_safe`. -/
+theorem C04_c_serialize_override_never_leaves_object (checkCap : Bool) (m : Msg) (o : MObj) (capBytes : Nat)
+    (hb : ∀ f ∈ m.fields, okBits f = true) : (ser checkCap true m o capBytes).isOobObject = false := by
   unfold ser
   by_cases hc : (checkCap && decide (8 * capBytes < msgMax fieldMax m)) = true
   · simp [hc, Out.isOobObject]
@@ -250,7 +261,7 @@ theorem C04_c_serialize_override_never_leaves_object (checkCap : Bool) (m : Msg)
       cases o with
       | struct vs =>
         rw [padEnd_isOobObject]
-        exact serFields_noObj true (8 * capBytes) fs vs 0 fun f _ => okCmp_storage f
+        exact serFields_noObj true (8 * capBytes) fs vs 0 fun f hf => okCmp_storage f (hb f hf)
       | union _ _ => rfl
     | union tb tc fs =>
       cases o with
@@ -269,12 +280,13 @@ theorem C04_c_serialize_override_never_leaves_object (checkCap : Bool) (m : Msg)
             | some v =>
               simp only
               rw [padEnd_isOobObject]
-              exact serField_noObj true (8 * capBytes) tb f v (okCmp_storage f)
+              exact serField_noObj true (8 * capBytes) tb f v (okCmp_storage f (hb f (nth?_mem hf)))
 
 /-- The capacity-override option, buffer side: with the capacity check compiled out the per-primitive checks protect
     only what is written through the checked setter; everything is in bounds exactly under the user's obligation
     "the buffer holds the largest message the reduced capacities allow". -/
 theorem C04_c_serialize_override_buffer_condition (m : Msg) (o : MObj) (capBytes : Nat)
+    (hb : ∀ f ∈ m.fields, okBits f = true)
     (hbuf : msgMax (fieldMaxB true) m ≤ 8 * capBytes) : (ser false true m o capBytes).isOob = false := by
   unfold ser
   simp only [Bool.false_and, Bool.false_eq_true, if_false]
@@ -285,7 +297,7 @@ theorem C04_c_serialize_override_buffer_condition (m : Msg) (o : MObj) (capBytes
       simp only [msgMax] at hbuf
       have := le_pad8 (sumMax (fieldMaxB true) fs)
       rw [padEnd_isOob]
-      exact (serFields_safe true (8 * capBytes) fs vs 0 (fun f _ => okCmp_storage f) (by omega)).notOob
+      exact (serFields_safe true (8 * capBytes) fs vs 0 (fun f hf => okCmp_storage f (hb f hf)) (by omega)).notOob
     | union _ _ => rfl
   | union tb tc fs =>
     cases o with
@@ -305,7 +317,7 @@ theorem C04_c_serialize_override_buffer_condition (m : Msg) (o : MObj) (capBytes
           simp only
           have := le_maxMax (fieldMaxB true) (nth?_mem hf)
           rw [padEnd_isOob]
-          exact (serField_safe true (8 * capBytes) tb f v (okCmp_storage f) (by omega)).notOob
+          exact (serField_safe true (8 * capBytes) tb f v (okCmp_storage f (hb f (nth?_mem hf))) (by omega)).notOob
 
 /-- When do the per-write checks alone protect the buffer?  Exactly when EVERY write goes through the bounds-checked
     setter (the C++ serializer as it is; not the C serializer, see the `sBytes` example below): then the up-front capacity
@@ -363,8 +375,9 @@ theorem C04_c_deserialize_in_bounds_default (cs : Bool) (rd : Nat → Nat → Na
     (hno : ∀ f ∈ m.fields, noOverride f = true) : (de cs rd m).isOob = false :=
   C04_c_deserialize_in_bounds cs rd m fun f hf => okCmp_of_noOverride cs (hno f hf)
 
-theorem C04_c_deserialize_in_bounds_override (rd : Nat → Nat → Nat) (m : Msg) : (de true rd m).isOob = false :=
-  C04_c_deserialize_in_bounds true rd m fun f _ => okCmp_storage f
+theorem C04_c_deserialize_in_bounds_override (rd : Nat → Nat → Nat) (m : Msg) (hb : ∀ f ∈ m.fields, okBits f = true) :
+    (de true rd m).isOob = false :=
+  C04_c_deserialize_in_bounds true rd m fun f hf => okCmp_storage f (hb f hf)
 
 /-! regression / exactness: `uint8 a; uint16[<=6] xs; uint8 b` with `…_xs_ARRAY_CAPACITY_` user-defined as 2. -/
 def sOv : Msg := .struct [.prim 8 false, .varr 8 16 6 2 false true, .prim 8 false]
@@ -392,6 +405,215 @@ example : ser false false (.struct [.prim 8 true, .varr 8 8 6 6 true false, .pri
 /-- default build, count far above the capacity, zero-sized buffer -/
 example : ser true false (.struct [.prim 8 false, .varr 8 8 6 6 false false]) (.struct [.prim, .count 99999]) 0 = .err .bufferTooSmall := by decide
 example : ser true false (.struct [.prim 8 false, .varr 8 8 6 6 false false]) (.struct [.prim, .count 99999]) 8 = .err .badArrayLength := by decide
+
+/-! ### round 2: every array kind, the override option, exactness, totality -/
+
+/-- EXACTNESS, deserializer: one array field never makes `_deserialize_` leave the object, for every buffer content,
+    IF AND ONLY IF the bound of the emitted comparison is within the array that is really there. -/
+theorem C04_c_deserialize_object_safe_iff (cs : Bool) (f : Field) :
+    (∀ rd off, (deField cs rd off f).isOob = false) ↔ okDe cs f = true := by
+  constructor
+  · intro h
+    cases hd : okDe cs f with
+    | true => rfl
+    | false =>
+      obtain ⟨rd, hr⟩ := deField_oob_of_not_okDe cs 0 f hd
+      have := h rd 0
+      cases hx : deField cs rd 0 f <;> rw [hx] at hr this <;> simp_all [Out.isOob, Out.isOobObject]
+  · intro h rd off
+    exact deField_safe_okDe cs rd off f h
+
+/-- EXACTNESS, serializer: no object (any `count`) and no buffer size makes `_serialize_` read outside the object
+    IF AND ONLY IF the bound of the emitted comparison is within the array that is really there. -/
+theorem C04_c_serialize_object_safe_iff (cs : Bool) (f : Field) :
+    (∀ capBits off v, (serField cs capBits off f v).isOobObject = false) ↔ okSer cs f = true := by
+  constructor
+  · intro h
+    cases hd : okSer cs f with
+    | true => rfl
+    | false =>
+      obtain ⟨capBits, v, hr⟩ := serField_oob_of_not_okSer cs 0 f hd
+      rw [h capBits 0 v] at hr
+      cases hr
+  · intro h capBits off v
+    exact serField_noObj_okSer cs capBits off f v h
+
+/-- A variable-length BIT array under the override option: `bitpacked` is dimensioned from the DSDL capacity and both
+    comparisons use the DSDL literal (what the templates emit), or dimension and comparisons all follow the macro —
+    then for EVERY user capacity not above the DSDL capacity (the documented precondition; the header `#error`s
+    otherwise) no input and no object makes the codec touch a byte outside `bitpacked`. -/
+theorem C04_c_bit_array_safe_for_every_reduced_capacity (lp cap sl : Nat) (sm : Bool) (cS cD : Cmp) (lpc : Bool)
+    (hred : sl ≤ cap) (hS : sm = true → cS = .macro) (hD : sm = true → cD = .macro) :
+    (∀ rd off, (deField false rd off (.vbits lp cap sl sm cS cD lpc)).isOob = false) ∧
+    (∀ capBits off v, (serField false capBits off (.vbits lp cap sl sm cS cD lpc) v).isOobObject = false) := by
+  have hb := okBits_vbits lp cap sl sm cS cD lpc hred hS hD
+  have hc : okCmp false (.vbits lp cap sl sm cS cD lpc) = true := by simpa [okBits, okCmp] using hb
+  exact ⟨fun rd off => deField_safe false rd off _ hc, fun capBits off v => serField_noObj false capBits off _ v hc⟩
+
+/-- … and it is exactly the combination "dimension from the macro, comparison against the DSDL literal" that is unsafe:
+    capacity 20 reduced to 2 leaves one byte, a count of 9 is accepted and the second byte is touched. -/
+example : de false (fun off _ => if off = 8 then 9 else 0) (.struct [.prim 8 false, .vbits 8 20 2 true .lit .lit false, .prim 8 false])
+    = .oobObject 1 1 := by decide
+example : ser false false (.struct [.prim 8 false, .vbits 8 20 2 true .lit .lit false, .prim 8 false]) (.struct [.prim, .count 9, .prim]) 64
+    = .oobObject 1 1 := by decide
+/-- the shipped shape (dimension from the DSDL capacity): the same input is fine, 21 is refused -/
+example : de false (fun off _ => if off = 8 then 9 else 0) (.struct [.prim 8 false, .vbits 8 20 2 false .lit .lit false, .prim 8 false])
+    = .ok 33 := by decide
+example : de false (fun off _ => if off = 8 then 21 else 0) (.struct [.prim 8 false, .vbits 8 20 2 false .lit .lit false, .prim 8 false])
+    = .err .badArrayLength := by decide
+
+/-- Every row of the table regenerated from the headers the generator emits — 10 array kinds x {override off, on} x
+    {endianness any, little} — passes the decidable criterion `Row.safe`.  (FAILS to build when a template sizes an array
+    from the user-overridable macro and keeps comparing with the DSDL capacity.) -/
+theorem C04_c_array_kinds_table_safe : Gen.CArrayKinds.rows.all Row.safe = true := by decide
+
+/-- a field of a generated type: a primitive, or an array of a kind of the table with any prefix / element width, any
+    DSDL capacity and any user capacity not above it -/
+def FromTable (cs : Bool) (f : Field) : Prop :=
+  (∃ w c, f = .prim w c) ∨
+    ∃ r ∈ Gen.CArrayKinds.rows, (r.isVarr = true → r.cs = cs) ∧ ∃ lp eb cap usr, usr ≤ cap ∧ r.field lp eb cap usr = some f
+
+theorem okCmp_of_fromTable {cs : Bool} {f : Field} (h : FromTable cs f) : okCmp cs f = true := by
+  rcases h with ⟨w, c, rfl⟩ | ⟨r, hr, hcs, lp, eb, cap, usr, hu, hf⟩
+  · rfl
+  · have hs : r.safe = true := List.all_eq_true.mp C04_c_array_kinds_table_safe r hr
+    obtain ⟨g, hg, hok⟩ := Row.safe_field r hs lp eb cap usr hu
+    rw [hf] at hg
+    cases hg
+    cases hv : r.isVarr with
+    | true => rw [← hcs hv]; exact hok
+    | false => rw [okCmp_cs_irrelevant cs r.cs f (Row.field_not_varr r hv lp eb cap usr f hf)]; exact hok
+
+/-- EVERY ARRAY KIND x OVERRIDE ON/OFF x EVERY USER-REDUCED CAPACITY.  A message whose fields are primitives and arrays of the
+    kinds of the table: no object (counts and tags outside their range included), no buffer size, with or without the
+    up-front capacity check, makes `_serialize_` read outside the object; no buffer content makes `_deserialize_` write
+    outside the object.  Precondition: the user capacity does not exceed the DSDL capacity. -/
+theorem C04_c_generated_array_kinds_never_leave_object (cs : Bool) (m : Msg) (hm : ∀ f ∈ m.fields, FromTable cs f) :
+    (∀ checkCap o capBytes, (ser checkCap cs m o capBytes).isOobObject = false) ∧ (∀ rd, (de cs rd m).isOob = false) := by
+  have hc : ∀ f ∈ m.fields, okCmp cs f = true := fun f hf => okCmp_of_fromTable (hm f hf)
+  refine ⟨?_, fun rd => C04_c_deserialize_in_bounds cs rd m hc⟩
+  intro checkCap o capBytes
+  unfold ser
+  by_cases hcc : (checkCap && decide (8 * capBytes < msgMax fieldMax m)) = true
+  · simp [hcc, Out.isOobObject]
+  · simp only [hcc, Bool.false_eq_true, ↓reduceIte]
+    cases m with
+    | struct fs =>
+      cases o with
+      | struct vs =>
+        rw [padEnd_isOobObject]
+        exact serFields_noObj cs (8 * capBytes) fs vs 0 hc
+      | union _ _ => rfl
+    | union tb tc fs =>
+      cases o with
+      | struct _ => rfl
+      | union tag vs =>
+        simp only
+        cases hw : write tc (8 * capBytes) 0 tb with
+        | some r => exact write_notObj hw
+        | none =>
+          simp only
+          cases hf : nth? fs tag with
+          | none => rfl
+          | some f =>
+            cases hv : nth? vs tag with
+            | none => rfl
+            | some v =>
+              simp only
+              rw [padEnd_isOobObject]
+              exact serField_noObj cs (8 * capBytes) tb f v (hc f (nth?_mem hf))
+
+/-- The criterion is not too strict: a row that fails it and that the model can express yields, for DSDL capacity 16
+    reduced to 1, an input on which the deserializer or the serializer leaves the object. -/
+theorem C04_c_unsafe_array_kind_has_failing_input (r : Row) (h : r.safe = false) (lp eb : Nat) (f : Field)
+    (hf : r.field lp eb 16 1 = some f) :
+    (∃ rd, (deField r.cs rd 0 f).isOobObject = true) ∨ (∃ capBits v, (serField r.cs capBits 0 f v).isOobObject = true) := by
+  have hu := Row.unsafe_field r h lp eb f hf
+  rw [okCmp_iff] at hu
+  cases hs : okSer r.cs f with
+  | false => exact .inr (serField_oob_of_not_okSer r.cs 0 f hs)
+  | true =>
+    rw [hs] at hu
+    simp only [Bool.true_and] at hu
+    exact .inl (deField_oob_of_not_okDe r.cs 0 f hu)
+
+/-- non-vacuity: the table has the override rows; a seeded row "bit array dimensioned from the macro, compared with the
+    literal" is expressible and unsafe -/
+example : (Gen.CArrayKinds.rows.filter fun r => r.override && r.overridable).length = 10 := by decide
+example : (Gen.CArrayKinds.rows.filter fun r => r.isVarr && r.override).all (fun r => r.cs) = true := by decide
+example : ({ kind := "VBool", override := true, little := false, varLen := true, bits := true, overridable := true, storMacro := true,
+             cmpSer := .lit, cmpDe := .lit, lpChecked := false, elemsChecked := false } : Row).safe = false := by decide
+example : FromTable true (.varr 8 16 6 2 false true) :=
+  .inr ⟨{ kind := "VZero", override := true, little := false, varLen := true, bits := false, overridable := true, storMacro := true,
+          cmpSer := .storage, cmpDe := .storage, lpChecked := false, elemsChecked := true }, by decide, fun _ => rfl, 8, 16, 6, 2,
+        by decide, by decide⟩
+
+/-! #### totality: success or a documented code -/
+
+/-- the model's error codes are codes of the table regenerated from the support templates — by name and by value — and
+    each of them is one the templates really return; the C++ enumerators carry the same values -/
+theorem C04_model_error_codes_documented (e : CErr) :
+    (e.macroName, e.code) ∈ Gen.ErrorCodes.c ∧ e.macroName ∈ Gen.ErrorCodes.cReturned ∧
+      ∀ n, e.cppName = some n → (n, e.code) ∈ Gen.ErrorCodes.cpp ∧ n ∈ Gen.ErrorCodes.cppReturned := by
+  cases e <;> decide
+
+/-- every code a template returns is a documented one (C and C++), codes are distinct, positive and below 128, and the
+    two languages agree on the values of the codes both have -/
+theorem C04_returned_codes_documented :
+    (∀ n ∈ Gen.ErrorCodes.cReturned, n ∈ Gen.ErrorCodes.c.map (·.1)) ∧
+    (∀ n ∈ Gen.ErrorCodes.cppReturned, n ∈ Gen.ErrorCodes.cpp.map (·.1)) ∧
+    (Gen.ErrorCodes.c.map (·.2)).Nodup ∧ (Gen.ErrorCodes.cpp.map (·.2)).Nodup ∧
+    (∀ p ∈ Gen.ErrorCodes.c ++ Gen.ErrorCodes.cpp, 0 < p.2 ∧ p.2 < 128) ∧
+    (∀ p ∈ Gen.ErrorCodes.cpp, p.2 ∈ Gen.ErrorCodes.c.map (·.2)) := by
+  decide
+
+/-- a return of the generated routine: success, or the negation of a documented code -/
+def Out.documented : Out → Prop
+  | .ok _ => True
+  | .err e => (e.macroName, e.code) ∈ Gen.ErrorCodes.c
+  | _ => False
+
+theorem documented_of_exit {r : Out} (h : r.isExit = true) : Out.documented r := by
+  cases r with
+  | ok n => trivial
+  | err e => exact (C04_model_error_codes_documented e).1
+  | _ => simp [Out.isExit] at h
+
+/-- TOTALITY, serializer, default build: for every object of the generated type (any counts, any tag), every buffer size
+    and every combination of `NULL` arguments the routine returns success or a documented code. -/
+theorem C04_c_serialize_total (objNull bufNull sizeNull cs : Bool) (m : Msg) (o : MObj) (capBytes : Nat)
+    (hno : ∀ f ∈ m.fields, noOverride f = true) (hfit : MObj.fits m o = true) :
+    Out.documented (serApi objNull bufNull sizeNull true cs m o capBytes) := by
+  unfold serApi
+  split
+  · exact (C04_model_error_codes_documented .invalidArgument).1
+  · exact documented_of_exit (Out.isExit_of (C04_c_serialize_in_bounds cs m o capBytes hno) (ser_notShape true cs m o capBytes hfit))
+
+/-- TOTALITY, serializer, override option with the capacity check compiled out: the same under the user's obligation. -/
+theorem C04_c_serialize_override_total (objNull bufNull sizeNull : Bool) (m : Msg) (o : MObj) (capBytes : Nat)
+    (hb : ∀ f ∈ m.fields, okBits f = true) (hbuf : msgMax (fieldMaxB true) m ≤ 8 * capBytes) (hfit : MObj.fits m o = true) :
+    Out.documented (serApi objNull bufNull sizeNull false true m o capBytes) := by
+  unfold serApi
+  split
+  · exact (C04_model_error_codes_documented .invalidArgument).1
+  · exact documented_of_exit (Out.isExit_of (C04_c_serialize_override_buffer_condition m o capBytes hb hbuf) (ser_notShape false true m o capBytes hfit))
+
+/-- TOTALITY, deserializer: every buffer content and size (0 and a `NULL` buffer included), every combination of `NULL`
+    arguments: success or a documented code. -/
+theorem C04_c_deserialize_total (objNull bufNull sizeNull cs : Bool) (sizeBytes : Nat) (rd : Nat → Nat → Nat) (m : Msg)
+    (h : ∀ f ∈ m.fields, okCmp cs f = true) : Out.documented (deApi objNull bufNull sizeNull sizeBytes cs rd m) := by
+  unfold deApi
+  split
+  · exact (C04_model_error_codes_documented .invalidArgument).1
+  · exact documented_of_exit (Out.isExit_of (C04_c_deserialize_in_bounds cs rd m h) (de_notShape cs rd m))
+
+/-- non-vacuity: each documented outcome of the model is reached -/
+example : serApi true false false true false sOv (.struct [.prim, .count 1, .prim]) 64 = .err .invalidArgument := by decide
+example : deApi false true false 0 false (fun _ _ => 0) sOv = .ok 24 := by decide
+example : deApi false true false 3 false (fun _ _ => 0) sOv = .err .invalidArgument := by decide
+example : ser true false (.union 8 false [.prim 8 false, .fbits 20]) (.union 7 [.prim, .prim]) 8 = .err .badUnionTag := by decide
+example : ser true false (.struct [.farr 16 3 true, .fbits 20]) (.struct [.prim, .prim]) 9 = .ok 72 := by decide
+example : ser true false (.struct [.farr 16 3 true, .fbits 20]) (.struct [.prim, .prim]) 8 = .err .bufferTooSmall := by decide
 
 end bounds
 
